@@ -19,16 +19,16 @@ import (
 
 	meshconfig "istio.io/api/mesh/v1alpha1"
 	networking "istio.io/api/networking/v1alpha3"
-	"istio.io/istio/pkg/cluster"
-	"istio.io/istio/pkg/network"
 	"istio.io/istio/pilot/pkg/model"
 	"istio.io/istio/pilot/pkg/networking/core"
 	v3 "istio.io/istio/pilot/pkg/xds/v3"
+	"istio.io/istio/pkg/cluster"
 	"istio.io/istio/pkg/config/constants"
 	"istio.io/istio/pkg/config/host"
 	"istio.io/istio/pkg/config/mesh"
 	"istio.io/istio/pkg/config/protocol"
 	"istio.io/istio/pkg/config/schema/kind"
+	"istio.io/istio/pkg/network"
 	"istio.io/istio/pkg/util/sets"
 )
 
@@ -143,21 +143,22 @@ type mMG struct {
 }
 
 type mProxy struct {
-	Type      model.NodeType
-	CfgNs     int
-	MetaNs    int
-	EW        bool
-	WatchAddr bool
-	SelfDisc  bool
-	Local     [2]int // name, ns; name -1 = zero value
-	PrevLocal [2]int
-	Targets   [][2]int // hostname, ns
-	Scope     mScope
-	PrevScope mScope
-	MG        mMG
-	PrevMG    mMG
-	Network   int
-	Addrs     []int
+	Type        model.NodeType
+	CfgNs       int
+	MetaNs      int
+	EW          bool
+	WatchAddr   bool
+	SelfDisc    bool
+	Local       [2]int // name, ns; name -1 = zero value
+	PrevLocal   [2]int
+	Targets     [][2]int // hostname, ns
+	PrevTargets [][2]int
+	Scope       mScope
+	PrevScope   mScope
+	MG          mMG
+	PrevMG      mMG
+	Network     int
+	Addrs       []int
 }
 
 var theMesh = func() *meshconfig.MeshConfig {
@@ -316,6 +317,13 @@ func (e *scopeEnv) realProxy(p mProxy) *model.Proxy {
 			svc.ClusterVIPs = model.AddressMap{Addresses: map[cluster.ID][]string{"Kubernetes": vips}}
 		}
 		px.ServiceTargets = append(px.ServiceTargets, model.ServiceTarget{Service: svc, Port: model.ServiceInstancePort{}})
+	}
+	for _, t := range p.PrevTargets {
+		px.PrevServiceTargets = append(px.PrevServiceTargets, model.ServiceTarget{Service: &model.Service{
+			Hostname:       host.Name(objName(t[0])),
+			DefaultAddress: "0.0.0.0",
+			Attributes:     model.ServiceAttributes{Name: "h" + strconv.Itoa(t[0]), Namespace: nsName(t[1])},
+		}, Port: model.ServiceInstancePort{}})
 	}
 	return px
 }
